@@ -47,6 +47,10 @@ def rk23Guard {σ : Type} (P : R23Params α n) (s : R23State σ α n) : Option S
 def rk23Adjust {σ : Type} (P : R23Params α n) (s : R23State σ α n) : α :=
   if Gen.Rk23.lastGuard s.x s.h P.xend P.posneg then P.xend - s.x else s.h
 
+/-- the step was shortened to land on xend (`last`) -/
+def rk23Last {σ : Type} (P : R23Params α n) (s : R23State σ α n) : Bool :=
+  decide (Gen.Rk23.lastGuard s.x s.h P.xend P.posneg)
+
 structure R23Trial (α : Type) (n : Nat) where
   o : Gen.Rk23.StagesOut α n
   m : Meter α n
@@ -62,7 +66,7 @@ def rk23NextStep (P : R23Params α n) (h err : α) : α :=
   let h' := h * Gen.Rk23.hAcceptFactor P.safety err (Gen.Rk23.errorExponent : α) P.scaleMax P.scaleMin
   if Gen.Rk23.hmaxExceeded h' P.hmax then P.hmax * P.posneg else h'
 
-def rk23Accepted {σ : Type} (P : R23Params α n) (f : Rhs α n) (ob : Obs σ α n) (s : R23State σ α n) (h : α)
+def rk23Accepted {σ : Type} (P : R23Params α n) (f : Rhs α n) (ob : Obs σ α n) (s : R23State σ α n) (h : α) (last : Bool)
     (T : R23Trial α n) : Sum (R23State σ α n) (Result σ α n) :=
   let m := T.m.incTotal.incAccepted
   let xold := s.x
@@ -78,8 +82,8 @@ def rk23Accepted {σ : Type} (P : R23Params α n) (f : Rhs α n) (ob : Obs σ α
   | .stop obs y => .inr { status := .userInterrupt, h := h, x := x, y := y, m := m, obs := obs }
   | .go obs y k1 m =>
     let h' := rk23NextStep P h T.err
-    -- Normal exit
-    if Num.eqb x P.xend = true then .inr { status := .success, h := h', x := x, y := y, m := m, obs := obs }
+    -- Normal exit: after the landing step, or when a step happens to end exactly at xend
+    if last || Num.eqb x P.xend then .inr { status := .success, h := h', x := x, y := y, m := m, obs := obs }
     else .inl { x := x, h := h', y := y, k1 := k1, m := m, obs := obs }
 
 def rk23Iter {σ : Type} (P : R23Params α n) (f : Rhs α n) (ob : Obs σ α n) (s : R23State σ α n) :
@@ -89,7 +93,7 @@ def rk23Iter {σ : Type} (P : R23Params α n) (f : Rhs α n) (ob : Obs σ α n) 
   | none =>
     let h := rk23Adjust P s
     let T := rk23Trial P f s h
-    if T.err ≤ P.one then rk23Accepted P f ob s h T
+    if T.err ≤ P.one then rk23Accepted P f ob s h (rk23Last P s) T
     else
       .inl { s with h := h * Gen.Rk23.hRejectFactor P.safety T.err (Gen.Rk23.errorExponent : α) P.scaleMin,
                     m := T.m.incRejected }
